@@ -10,7 +10,8 @@ h = [x for x in u['harnesses'] if x['name'] == harness][0]
 sc = vlib.Scratch('dev')
 try:
     sc.prepare()
-    vlib.inject(sc.dir, [u])
+    deps = [vlib.parse_kani_unit(os.path.join(vlib.VERIF, 'contracts/kani', d + '.rs')) for d in os.environ.get('KUNITS', '').split(',') if d]
+    vlib.inject(sc.dir, [u] + deps)
     cmd = ['cargo', 'kani', '--target-dir', sc.target, '-Z', 'function-contracts', '-Z', 'stubbing', '--exact', '--harness', vlib.harness_path(u, h)] + extra
     rc, out, err, to = vlib.run_group(['bash', '-c', 'ulimit -v 16000000; exec ' + ' '.join(vlib.shell_quote(c) for c in cmd)], int(os.environ.get('KTO', '900')), cwd=sc.dir, env=vlib.kani_env())
     if to: print('TIMEOUT')
